@@ -55,8 +55,8 @@ def run(tier, rep, ev):
                           "asset": "set" if (i + j) % 2 else "list", "slash": ["none", "dirs", "all"][(i + j) % 3]})
         variants = [(i % 2 == 0, "path" if (i // 2) % 2 == 0 else "stream")] if tier == "quick" else [(e, t) for e in (False, True) for t in ("path", "stream")]
         for enc, tgt in variants:
-            cases.append({"shape": shape, "calls": calls, "password": "pw" if enc else None, "target": tgt,
-                          "ending": ["close", "with", "exception"][i % 3], "seed": i % 7, "coder": ["lzma2", "copy", "bzip2"][i % 3],
+            cases.append({"shape": shape, "calls": calls, "password": "pw" if enc else None, "target": tgt, "damaged": sorted(b["arch"].get("damaged", [])),
+                          "ending": ["close", "with", "exception"][i % 3], "seed": i % 7, "coder": ["lzma2", "copy", "bzip2", "bcj+lzma2", "delta+lzma2", "deflate", "arm+lzma"][i % 7],
                           "packcrc": (i // 3) % 2 == 0,
                           "wd": os.path.join(base, f"s{len(cases)}")})
     # random longer sequences on random shapes
@@ -77,8 +77,9 @@ def run(tier, rep, ev):
             calls.append({"name": nm, "T": [R.randrange(0, n + 1) for _ in range(R.randrange(0, 3))], "rec": R.random() < 0.5,
                           "sink": R.choice(["factory", "path"]), "asset": R.choice(["list", "set"]), "slash": R.choice(["none", "dirs", "all"])})
         calls = calls[:6]
-        cases.append({"shape": shape, "calls": calls, "password": R.choice([None, None, "pw"]), "target": R.choice(["path", "stream"]),
-                      "ending": R.choice(["close", "with", "exception"]), "seed": i, "coder": R.choice(["lzma2", "copy", "deflate", "bzip2"]),
+        dmg = [R.randrange(1, shape["nfolders"] + 1)] if shape["nfolders"] and R.random() < 0.3 else []
+        cases.append({"shape": shape, "calls": calls, "password": R.choice([None, None, "pw"]), "target": R.choice(["path", "stream"]), "damaged": dmg,
+                      "ending": R.choice(["close", "with", "exception"]), "seed": i, "coder": R.choice(["lzma2", "copy", "deflate", "bzip2", "bcj+lzma2", "delta+lzma2", "bcj+bzip2", "ppc+lzma2"]),
                       "packcrc": R.random() < 0.5,
                       "wd": os.path.join(base, f"r{i}")})
     ev.sample({"tlc_sequence": behs[len(behs) // 2]["calls"]})
